@@ -233,6 +233,9 @@ def k3_post(c):
         ("consumed-lines=body(+next-title-if-the-section-is-empty)",
          z3.Or(cursor(c) == e + 1, z3.And(t == e, cursor(c) == e + 2))),
         ("result-is-a-new-section", z3.Not(z3.Select(c.old("$alloc"), sect))),
+        ("result-is-a-well-shaped-section-of-new-items", z3.And(n >= 0, z3.Select(c.h("$alloc"), sect), forall(q, z3.Implies(
+            z3.And(0 <= q, q < n), z3.And(z3.Select(c.h("$alloc"), z3.Select(A, q)), z3.Select(A, q) != sect,
+                                          z3.Not(z3.Select(c.old("$alloc"), z3.Select(A, q)))))))),
         ("one-item-per-accepted-line", n == hrank(e + 1)),
         ("items-come-from-this-section's-lines-in-order", forall(q, z3.Implies(z3.And(0 <= q, q < n), z3.And(
             t < src(q), src(q) <= e, accepted(src(q), sec), hrank(src(q)) == q)))),
